@@ -1217,6 +1217,82 @@ def rule_r14(prog, res):
                     'others never run' % (f.qualname, call_name(c)))
 
 
+
+class _LenToName(ast.NodeTransformer):
+    """len(<expr containing key>) -> Name(var)"""
+    def __init__(self, table):
+        self.table = table
+
+    def visit_Call(self, node):
+        if isinstance(node.func, ast.Name) and node.func.id == 'len' and \
+                node.args:
+            t = unparse(node.args[0])
+            for key, var in self.table:
+                if key in t:
+                    return ast.copy_location(ast.Name(id=var, ctx=ast.Load()),
+                                             node)
+        return self.generic_visit(node)
+
+
+def rule_r15(prog, res):
+    res.rule('R15', 'the msgpack-rpc envelope sizes that pass the size gate '
+             'are the sizes the envelope reader unpacks: any other size is '
+             'refused with a fault (whose events fire), not a ValueError '
+             'from an unpacking assignment')
+    import copy
+    from ..constfold import try_fold
+    k = prog.cls('spyne.protocol.msgpack:MessagePackRpc')
+    cid = k.methods.get('create_in_document')
+    dec = k.methods.get('decompose_incoming_envelope')
+    if cid is None or dec is None:
+        raise AnalysisError('MessagePackRpc envelope functions', 'not found')
+    sizes = {len(a.targets[0].elts) for a in walk_no_defs(dec.node)
+             if isinstance(a, ast.Assign) and isinstance(
+                 a.targets[0], ast.Tuple) and
+             unparse(a.value) == 'ctx.in_document'}
+    n = 0
+    for r in walk_no_defs(cid.node):
+        if not isinstance(r, ast.Raise):
+            continue
+        conds = [(e, pol) for e, pol in flatten_guards(guards_at(
+            r, stop=cid.node)) if 'len(ctx.in_document)' in unparse(e)]
+        if not conds:
+            continue
+        n += 1
+        passed = set()
+        und = False
+        for size in range(0, 9):
+            raised = True
+            for e, pol in conds:
+                e2 = _LenToName([('in_document', '__n')]).visit(
+                    copy.deepcopy(e))
+                known, v = try_fold(prog, cid.module, e2, {'__n': size})
+                if not known:
+                    und = True
+                elif bool(v) != pol:
+                    raised = False
+            if not raised:
+                passed.add(size)
+        where = '%s:%d' % (cid.module.relpath, r.lineno)
+        if und:
+            res.unclass('R15', where, 'envelope size gate not decidable')
+            continue
+        ok = bool(sizes) and passed <= sizes
+        res.ob('R15', where, 'envelope sizes let through: %s; sizes unpacked: '
+               '%s' % (sorted(passed), sorted(sizes)),
+               'ok' if ok else 'VIOLATED')
+        if not ok:
+            res.finding('R15', 'MessagePackRpc.create_in_document|envelope-'
+                        'size-gate|%s' % sorted(passed - sizes), where,
+                        'envelopes of size %s pass the gate but '
+                        'decompose_incoming_envelope unpacks %s names: the '
+                        'ValueError is no Fault, so it leaves '
+                        'generate_contexts and neither method_exception_* '
+                        'nor method_context_closed fire' % (
+                            sorted(passed - sizes), sorted(sizes)))
+    res.floor('R15', 'envelope size gates in MessagePackRpc', n, 1)
+
+
 def run(prog, res, tier):
     res.run_rule(rule_r1, prog, res, tier)
     res.run_rule(rule_r2, prog, res)
@@ -1232,6 +1308,7 @@ def run(prog, res, tier):
     res.run_rule(rule_r12, prog, res)
     res.run_rule(rule_r13, prog, res)
     res.run_rule(rule_r14, prog, res)
+    res.run_rule(rule_r15, prog, res)
 
 
 _A = 'spyne/application.py'
@@ -1244,6 +1321,17 @@ _D = 'spyne/descriptor.py'
 _O = 'spyne/util/oset.py'
 
 MUTANTS = [
+    Mutant('msgpack-envelope-of-two-passes', 'R15', 'fire',
+           'spyne/protocol/msgpack.py',
+           in_func('MessagePackRpc.create_in_document',
+                   "if not (3 <= len(ctx.in_document) <= 4):",
+                   "if not (2 <= len(ctx.in_document) < 5):"),
+           'envelope-size-gate'),
+    Mutant('msgpack-envelope-half-open', 'R15', 'twin',
+           'spyne/protocol/msgpack.py',
+           in_func('MessagePackRpc.create_in_document',
+                   "if not (3 <= len(ctx.in_document) <= 4):",
+                   "if not (3 <= len(ctx.in_document) < 5):"), None),
     Mutant('dict-fault-after-descriptor-read', 'R14', 'fire',
            'spyne/protocol/dictdoc/hier.py',
            in_func('HierDictDocument.serialize',
